@@ -267,6 +267,13 @@ func content(kind string, n int) []byte {
 	return b
 }
 
+func max1(n int) int {
+	if n < 1 {
+		return 1
+	}
+	return n
+}
+
 func main() { mon.Main("C12", run) }
 
 func run(r *mon.Run) {
@@ -390,6 +397,37 @@ func run(r *mon.Run) {
 					}
 					x[0] = x[0]&0x1f | 2<<5 // the same content as a byte string
 					checkOne(r, x, methods[3], 0, fmt.Sprintf("utf8-edge-bytes/%x/%s/h%d", sq, shape, hs))
+				}
+			}
+		}
+	}
+
+	// long text strings (a decoder may validate them piecewise): every ill-formed sequence at the very end, at the very
+	// start, and straddling the offsets where a chunked validator would cut (powers of two from 512 to 65536)
+	if r.Shard == 1%max1(r.NShards) {
+		bads := [][]byte{{0xe2, 0x82}, {0xc3}, {0xf0, 0x9f, 0x92}, {0xff}, {0x80}, {0xed, 0xa0, 0x80}, {0xc0, 0x80}}
+		goods := [][]byte{[]byte("\u00e9"), []byte("\u20ac"), []byte("\U0001f4a9"), []byte("\ufffd")}
+		for _, cut := range []int{512, 1024, 4096, 8192, 16384, 65536} {
+			for _, total := range []int{cut - 1, cut, cut + 1, cut + 2, 2*cut + 1, 5*cut/2 + 3} {
+				mk := func(seq []byte, at int) []byte {
+					c := bytes.Repeat([]byte{'a'}, total)
+					if at < 0 {
+						at = 0
+					}
+					if at+len(seq) > total {
+						at = total - len(seq)
+					}
+					copy(c[at:], seq)
+					return append(rcbor.AppendHead(nil, 3, uint64(total)), c...)
+				}
+				for si, seq := range append(append([][]byte{}, bads...), goods...) {
+					for _, at := range []int{total - len(seq), 0, cut - 1, cut - 2, cut - len(seq), cut, 2*cut - 1} {
+						if at < 0 || at+len(seq) > total {
+							continue
+						}
+						x := mk(seq, at)
+						checkOne(r, x, methods[4], 0, fmt.Sprintf("utf8-long/cut%d/len%d/seq%d@%d", cut, total, si, at))
+					}
 				}
 			}
 		}
